@@ -325,6 +325,46 @@ theorem C06_pick_singular (E : Ext K) (nr nc nf : Nat) (Sy : Nat → Nat → Nat
       funext i
       exact svec_apply E nr nc nf Sy m.pick.idx 0 i
 
+/-- whenever the composed model returns, it returns what one pass of `FDD_mpe` returns on the
+    stored pair of `SD_svalsvec` (no reference to the contracts) -/
+theorem C06_of_spec_ok_fdd_one (E : Ext K) (nr nc nf : Nat) (Sy : Nat → Nat → Nat → Cx K)
+    (freq : Nat → K) (DF sel : K) (m : ModeOut K)
+    (h : fddOfSpecOne E nr nc nf Sy freq DF sel = .ok m) :
+    fddOne nr nc nf freq (svalsvec E nr nc nf Sy).1 (svalsvec E nr nc nf Sy).2 DF sel = .ok m := by
+  unfold fddOfSpecOne at h
+  split_ifs at h with hshape h1
+  simp only at h
+  split at h
+  · cases h
+  · split_ifs at h with hz
+    exact h
+
+/-- conversely: a pass of `FDD_mpe` on the stored pair of `SD_svalsvec` (`nc ≤ nr`) — e.g. the
+    first stage of `Efdd.efddMpe`, which is `fddMpe nch nch nf freq sv.1 sv.2 sel DF1` — whose band
+    holds no exactly-zero second stored value IS the composed model's result, so
+    `C06_pick_singular` applies to it. -/
+theorem C06_of_spec_eq_fdd_one (E : Ext K) (nr nc nf : Nat) (hnr : nc ≤ nr)
+    (Sy : Nat → Nat → Nat → Cx K) (freq : Nat → K) (DF sel : K) (m : ModeOut K)
+    (h : fddOne nr nc nf freq (svalsvec E nr nc nf Sy).1 (svalsvec E nr nc nf Sy).2 DF sel = .ok m)
+    (hz : ∀ k, m.pick.lo ≤ k → k < m.pick.hi → (svalsvec E nr nc nf Sy).1 1 1 k ≠ 0) :
+    fddOfSpecOne E nr nc nf Sy freq DF sel = .ok m := by
+  obtain ⟨hp, _, _⟩ := C06_mode nr nc nf freq _ _ DF sel m h
+  have hzb : zeroInBand ((svalsvec E nr nc nf Sy).1 1 1) m.pick.lo m.pick.hi = false := by
+    cases hb : zeroInBand ((svalsvec E nr nc nf Sy).1 1 1) m.pick.lo m.pick.hi with
+    | false => rfl
+    | true =>
+      exfalso
+      unfold zeroInBand at hb
+      rw [List.any_eq_true] at hb
+      obtain ⟨i, hi, hi0⟩ := hb
+      exact hz (m.pick.lo + i) (Nat.le_add_right _ _) (by have := List.mem_range.mp hi; omega)
+        (by simpa using hi0)
+  unfold fddOfSpecOne
+  rw [if_neg (by omega)]
+  simp only [hp]
+  rw [hzb]
+  exact h
+
 /-- **Zero second singular value.**  If the line selection succeeds but `σ₂ = 0` at some line of
     the band (square-root contract at that line), the composed model is outside its domain
     (`.error "outside-model: …"`; numpy forms an `inf`/`nan` ratio there) — it never returns a
